@@ -451,6 +451,8 @@ class Explorer:
             if rec is None or rec.get('derived'):
                 r = self.eq_values(args[0], args[1])
                 if r is None:
+                    if self.trace and rec is None:
+                        return sym('%s(%s,%s)' % ('eq' if deff.endswith('eq') else 'ne', show(args[0]), show(args[1])))
                     return TOP if rec is None else None
                 return I(r if deff.endswith('eq') else 1 - r)
             return None
@@ -744,11 +746,12 @@ class Explorer:
             sloc = t[1][1][0] if t[1][0] in ('c', 'm') and not t[1][1][1] else None
             src = dsrc.get(sloc) if sloc is not None else None
             listed = set()
+            btag = tag_of(self.operand(env, t[1], depth)) if self.trace else None
             for val, tg in targets:
                 listed.add(val)
                 e2 = dict(env)
                 self.refine(e2, sloc, src, val, rec)
-                stack.append((tg, 0, e2, events, dsrc, visits))
+                stack.append((tg, 0, e2, (events | {('branch', btag, val)}) if btag else events, dsrc, visits))
             # otherwise
             e2 = dict(env)
             if sloc is not None:
@@ -764,6 +767,9 @@ class Explorer:
                             self.refine(e2, sloc, src, discr_of(self.facts, src[2], rest[0]), rec)
                         elif len(rest) == 0:
                             return  # unreachable otherwise
+            if btag:
+                ty0 = rec['locals'][sloc][0] if sloc is not None else ''
+                events = events | {('branch', btag, 1 if (ty0 == 'bool' and listed == {0}) else 'other')}
             stack.append((otherwise, 0, e2, events, dsrc, visits))
         elif k == 'call':
             self.call(rec, t, env, events, dsrc, visits, stack, results, depth)
@@ -968,7 +974,10 @@ class Explorer:
         if inl:
             self._inline(crec, args, ev, cont, depth, name)
             return
-        cont(TOP, ev | {('call', name)})
+        if self.trace:
+            cont(sym('call:%s@%s' % (name.rsplit('::', 1)[-1], t[5])), ev | {('call', name)})
+        else:
+            cont(TOP, ev | {('call', name)})
 
 
     OPT = 'core::option::Option'
